@@ -184,6 +184,25 @@ func (fr *Frame) ghostCall(i *ssa.Call, kind string, args []Val, st *State, g Te
 			ts = append(ts, fr.term(v, st))
 		}
 		fr.regs[i] = TV{T: Eq(ts[0], ts[1])}
+	case "Same":
+		var ts []Term
+		for _, a := range i.Call.Args {
+			v := a
+			if mi, ok := v.(*ssa.MakeInterface); ok {
+				v = mi.X
+			}
+			ts = append(ts, fr.term(v, st))
+		}
+		fr.regs[i] = TV{T: Eq(ts[0], ts[1])}
+	case "Lemma":
+		clo, ok := fr.closureArg(i.Call.Args[0], st)
+		if !ok {
+			x.unsupported("%s: Lemma argument is not a closure literal", fr.fn)
+			return
+		}
+		// the block runs as ordinary code (calls are checked against contracts) but
+		// emits no safety obligations of its own
+		x.runFunc(clo.Fn, nil, clo.Bind, st, g, fr, fr.prefix+"lemma:", false, func(f *Frame) { f.noSafety = true })
 	case "SameFloat":
 		fr.regs[i] = TV{T: Eq(x.t(args[0], st), x.t(args[1], st))}
 	case "B2I":
@@ -234,7 +253,9 @@ func (fr *Frame) ghostCall(i *ssa.Call, kind string, args []Val, st *State, g Te
 		rng := And(Le(lo, bv), Lt(bv, hi))
 		var q string
 		pat := x.patternFor(body, bv)
-		if kind == "Forall" {
+		if kind == "Forall" && pat == "" {
+			q = fmt.Sprintf("(forall ((%s Int)) (=> %s %s))", bv.S, rng.S, body.S)
+		} else if kind == "Forall" {
 			q = fmt.Sprintf("(forall ((%s Int)) (! (=> %s %s)%s))", bv.S, rng.S, body.S, pat)
 		} else {
 			q = fmt.Sprintf("(exists ((%s Int)) (and %s %s))", bv.S, rng.S, body.S)
@@ -324,7 +345,7 @@ func (x *Exec) patternFor(body Term, bv Term) string {
 			p += idx
 			end := matchParen(body.S, p)
 			sub := body.S[p : end+1]
-			if strings.HasSuffix(sub, " "+bv.S+")") && !strings.Contains(sub[:len(sub)-len(bv.S)-2], bv.S) && !strings.Contains(sub, "(let ") {
+			if strings.HasSuffix(sub, " "+bv.S+")") && !strings.Contains(sub[:len(sub)-len(bv.S)-2], bv.S) && !strings.Contains(sub, "(let ") && !strings.Contains(sub, "(ite ") {
 				return " :pattern (" + sub + ")"
 			}
 			idx = p + 1
@@ -691,17 +712,26 @@ func (fr *Frame) specCall(i *ssa.Call, callee *ssa.Function, c *Contract, args [
 		results = append(results, TV{T: x.pureApp(callee, r, ts)})
 	}
 	key := callee.Name() + "|" + fmt.Sprint(ts)
-	fuel := fr.fuel
-	if rec && e.specFns[callee] && fuel > 0 && !x.unfolded[key] && x.qdepth == 0 {
+	limit := fr.fuel
+	if n, ok := x.fuelFor[callee.Name()]; ok {
+		limit = n
+	}
+	depth := fr.unfoldDepth[callee.Name()]
+	if rec && e.specFns[callee] && depth < limit && !x.unfolded[key] && x.qdepth == 0 {
 		x.unfolded[key] = true
-		saved := fr.fuel
-		fr.fuel = fuel - 1
+		saved := fr.unfoldDepth
+		nd := map[string]int{}
+		for k, v := range saved {
+			nd[k] = v
+		}
+		nd[callee.Name()] = depth + 1
+		fr.unfoldDepth = nd
 		var tvs []Val
 		for _, t := range ts {
 			tvs = append(tvs, TV{T: t})
 		}
 		vals, _, _ := x.runFunc(callee, tvs, free, st, g, fr, fr.prefix, true, nil)
-		fr.fuel = saved
+		fr.unfoldDepth = saved
 		for r := range results {
 			if r < len(vals) {
 				if t, ok := x.termOfNoEscape(vals[r], st); ok {
